@@ -76,6 +76,8 @@ impl FeoxStore {
         let start = std::time::Instant::now();
         let mut observed = None;
         loop {
+            #[cfg(feoxdb_verif)]
+            crate::verif::sched::point("c07_patch_top");
             let record = self
                 .hash_table
                 .read(key, |_, record| record.clone())
@@ -98,6 +100,8 @@ impl FeoxStore {
             let new_value = crate::utils::json_patch::apply_json_patch(&current_value, patch)?;
             self.validate_key_value(key, &new_value)?;
             crate::test_hooks::pause_at(crate::test_hooks::AFTER_JSON_PATCH_READ);
+            #[cfg(feoxdb_verif)]
+            crate::verif::sched::point("c07_patch_guard");
 
             if self.replace_record_if_current(key, &source, &new_value, timestamp, 0, start)? {
                 return Ok(());
